@@ -64,8 +64,40 @@ package main
 //@     invariant replFail == old(replFail)
 //@     invariant len(r.errors) >= old(len(r.errors))
 
-//@ func findFiles(cwd, patterns) (files, err)
+// The filepath.Walk callback of findGoFiles: which entries are collected, which
+// directories are pruned (C15). `paths` and `relativeTo` are the captured variables.
+//@ func findGoFiles$1(path, info, err) (res)
+//@   requires err == nil ==> info != nil
+//@   requires global("path/filepath.SkipDir") != nil
+//@   assigns paths, elems(paths)
+//@   ensures [C15] walk-error-propagates: err != nil ==> res == err && paths == old(paths)
+//@   ensures [C15] regular-go-file-collected: err == nil && modeIsRegular(fileMode(info)) && hasSuffix(path, ".go") ==> (res == nil && len(paths) == old(len(paths)) + 1 && paths[old(len(paths))].Absolute == path)
+//@   ensures [C15] collected-prefix-kept: forall i int :: 0 <= i && i < old(len(paths)) ==> paths[i] == old(paths[i])
+//@   ensures [C15] nothing-else-collected: err == nil && !(modeIsRegular(fileMode(info)) && hasSuffix(path, ".go")) ==> paths == old(paths)
+//@   ensures [C15] pruned-directories: err == nil && modeIsDir(fileMode(info)) ==> ((res == global("path/filepath.SkipDir")) <==> (len(pathBase(path)) == 0 || pathBase(path)[0] == '.' || pathBase(path)[0] == '_' || pathBase(path) == "testdata" || pathBase(path) == "vendor"))
+//@   ensures [C15] pruned-directories-else-nil: err == nil && modeIsDir(fileMode(info)) && res != global("path/filepath.SkipDir") ==> res == nil
+//@   ensures [C15] other-entries-ignored: err == nil && !modeIsDir(fileMode(info)) && !(modeIsRegular(fileMode(info)) && hasSuffix(path, ".go")) ==> res == nil
+
+//@ func findGoFiles(cwd, path) (files, err)
 //@   assigns nothing
+
+//@ func findFiles(cwd, patterns) (files, err)
+//@   assigns enumFailures, allof("E.main_sourcePath"), allof("E.token_Pos")
+//@   at call main.findGoFiles set enumFailures = enumFailures + ite(result1 != nil, 1, 0)
+//@   ensures [C16] enumeration-failure-reported: enumFailures > old(enumFailures) ==> err != nil
+//@   ensures [C15,C16] no-failure-no-error: enumFailures == old(enumFailures) ==> err == nil
+//@   loop 0
+//@     invariant enumFailures >= old(enumFailures)
+//@     invariant [C16] enumFailures > old(enumFailures) ==> err != nil
+//@     invariant [C15,C16] enumFailures == old(enumFailures) ==> err == nil
+//@     invariant [C12,C15] keyed-by-absolute-path: forall k string {has(files, k)} :: has(files, k) ==> files[k].Absolute == k
+//@   loop 1
+//@     invariant enumFailures >= old(enumFailures)
+//@     invariant [C16] enumFailures > old(enumFailures) ==> err != nil
+//@     invariant [C15,C16] enumFailures == old(enumFailures) ==> err == nil
+//@     invariant [C12,C15] keyed-by-absolute-path: forall k string {has(files, k)} :: has(files, k) ==> files[k].Absolute == k
+//@   loop 2
+//@     decreases _
 
 //@ func (cmd *mainCmd) Run(args) (err)
 //@   requires cmd.Stdout != nil && cmd.Stderr != nil
@@ -92,3 +124,8 @@ package main
 
 //@ func cleanupFilePos(tfile, cl, comments)
 //@   assigns group(ast)
+
+// The sort.Slice comparison of findFiles.
+//@ func findFiles$1(i, j) (r)
+//@   requires 0 <= i && i < len(sortedPaths) && 0 <= j && j < len(sortedPaths)
+//@   assigns nothing
